@@ -1,10 +1,12 @@
 package main
 
 import (
+	"bytes"
 	"encoding/binary"
 	"encoding/hex"
 	"encoding/json"
 	"fmt"
+	"runtime/debug"
 	"strings"
 
 	"github.com/lesismal/nbio/nbhttp/websocket"
@@ -24,8 +26,8 @@ import (
 //
 //	receiver configuration: role x ReleasePayload on/off x blocking-mode (callbacks through
 //	  Engine.SyncCall) or executor mode (Conn.Execute; also an executor that refuses every job) x
-//	  handler set {OnMessage, OnMessage+OnDataFrame, OnDataFrame} x 4 allocator variants
-//	  (exact, pooled, stale, exact+moving Append);
+//	  handler set {OnMessage, OnMessage+OnDataFrame, OnDataFrame} x allocator variants (exact,
+//	  stale, exact+moving Append in poison mode, exact+moving Append in guard mode; see wsAllocs);
 //	segmentation: one piece, every single cut, byte at a time, and (wsMultiCut) three and four
 //	  reads cut at structural positions; for every segmentation additionally CloseAndClean right
 //	  at the last cut with the last piece still delivered (a read already in flight);
@@ -44,7 +46,7 @@ func init() {
 	register(wsPart)
 	registerReplay("ws-feed", wsReplay)
 	registerReplay("ws-send", wsSendReplay)
-	rules = append(rules, "[ws] every frame sequence of a fixed set (legal sequences incl. fragmented/compressed messages and interleaved control frames; each of them with a reserved bit injected at every frame position; over-limit single/fragmented/compressed messages; illegal close frames; oversized control frames) x receiver configuration (role, ReleasePayload on/off, blocking or executor mode, refusing executor, handler set, 4 allocator variants) x {one piece, every single cut, byte at a time, three and four reads (pairs / triples of structural cut positions within a window of 10 / 6 consecutive positions, under ReleasePayload on/off x {OnMessage+OnDataFrame, OnMessage}), each with CloseAndClean at the end or at the last cut} x {k-th callback panics, k-th conn write fails, cleanup after handler/after Parse}; sender: WriteMessage sequences x compression x k-th conn write fails;")
+	rules = append(rules, "[ws] every frame sequence of a fixed set (legal sequences incl. fragmented/compressed messages and interleaved control frames; each of them with a reserved bit injected at every frame position; over-limit single/fragmented/compressed messages; illegal close frames; oversized control frames) x receiver configuration (role, ReleasePayload on/off, blocking or executor mode, refusing executor, handler set, allocator variants exact / recycled contents / exact+moving Append in poison mode and exact+moving Append in guard mode = freed buffers inaccessible) x {one piece, every single cut, byte at a time, three and four reads (pairs / triples of structural cut positions within a window of 10 / 6 consecutive positions, under ReleasePayload on/off x {OnMessage+OnDataFrame, OnMessage}), each with CloseAndClean at the end or at the last cut} x {k-th callback panics, k-th conn write fails, cleanup after handler/after Parse}; sender: WriteMessage sequences x compression x k-th conn write fails;")
 	assumptions = append(assumptions, "[ws] callbacks copy what they keep (with ReleasePayload the payload belongs to nbio after the callback returns); after Parse fails or the implementation closed the conn the harness calls CloseAndClean once and stops feeding, except in the close-at-cut cases where the next piece is still passed to Parse")
 }
 
@@ -147,8 +149,8 @@ type wsOutcome struct {
 	tailChecks, tailDiffs int // cache compared with the input tail / differing in something that is not poison
 	msgChecks, msgDiffs   int // message under assembly compared with the frames fed / differing without poison
 	reported              int // callback payloads and connection writes searched for poison
-	reportsOff            bool
 	dangling              int
+	guarded               bool
 }
 
 // wsOracle is the content oracle of the WebSocket feeds. The allocator never recycles memory and
@@ -162,23 +164,27 @@ type wsOutcome struct {
 //	          byte for byte either as on the wire or unmasked (a complete frame is unmasked in place)
 //	message:  after a Parse call that returned nil on an open Conn, the concatenated payloads of the
 //	          data frames of the incomplete message among the frames completely fed
-//	reports:  searched for the poison byte when it occurs neither in the (unmasked) wire nor in a
-//	          message the reference model expects
+//	reports:  the k-th message / data frame / pong payload against the one the reference model
+//	          (wsgen.Judge) expects at that place
+//
+// Only "poison and nothing else where it differs" counts: bytes that were transformed after the
+// read (unmasked, inflated) or a parser that lost its place are not ownership matters here; guard
+// mode (freed buffers inaccessible) sees those reads where they happen.
 type wsOracle struct {
 	ep     *wsgen.Endpoint
 	wire   []byte
 	plain  []byte // the wire with every payload unmasked
 	frames []wsgen.Frame
-	ends   []int // end offset of frames[i] on the wire
-	legit  bool  // the poison byte may legitimately appear in reported data
+	ends   []int             // end offset of frames[i] on the wire
+	expect map[byte][][]byte // kind -> payloads the reference model expects to be reported, in order
+	nKind  map[byte]int      // kind -> reported so far
 	nEv    int
-	nWr    int
 	seen   bool
 	o      *wsOutcome
 }
 
 func newWsOracle(ep *wsgen.Endpoint, wire []byte, cfg wsgen.Cfg, o *wsOutcome) *wsOracle {
-	x := &wsOracle{ep: ep, wire: wire, plain: append([]byte{}, wire...), o: o}
+	x := &wsOracle{ep: ep, wire: wire, plain: append([]byte{}, wire...), o: o, expect: map[byte][][]byte{}, nKind: map[byte]int{}}
 	frames, w, _ := wsgen.ParseFrames(wire) // on a structural error: the frames before it
 	for i := range frames {
 		if w == nil || i >= len(w.Starts) {
@@ -194,13 +200,44 @@ func newWsOracle(ep *wsgen.Endpoint, wire []byte, cfg wsgen.Cfg, o *wsOutcome) *
 		x.ends = append(x.ends, at+len(frames[i].Payload))
 	}
 	x.frames = frames
-	x.legit = bytesHas(x.plain, track.PoisonByte) || bytesHas(wire, track.PoisonByte)
+	// what the reference model expects the endpoint to report: messages, pongs (ping / close
+	// handlers are the defaults here) and, for OnDataFrame, every non-empty data frame payload as it
+	// is on the wire (still compressed)
 	v := wsgen.Judge(frames, wsgen.Rules{Compression: cfg.Compress, ToServer: !cfg.Client})
 	for _, e := range v.Events {
-		x.legit = x.legit || bytesHas(e.Payload, track.PoisonByte)
+		if e.Kind == 'M' || e.Kind == 'O' {
+			x.expect[e.Kind] = append(x.expect[e.Kind], e.Payload)
+		}
 	}
-	x.legit = x.legit || bytesHas(v.OffMsg, track.PoisonByte)
+	for i := range frames {
+		if v.Offender >= 0 && i >= v.Offender {
+			break
+		}
+		if f := &frames[i]; !f.IsControl() && len(f.Payload) > 0 {
+			x.expect['F'] = append(x.expect['F'], f.Payload)
+		}
+	}
 	return x
+}
+
+// onlyPoisonDiffers reports whether got and want have the same length and differ, and got has the
+// poison byte at every differing position: what a copy out of a freed buffer looks like. Bytes
+// that went through a transformation after the read (unmasking, inflating) or a parser that lost
+// its place look different and are not an ownership matter (guard mode sees those reads).
+func onlyPoisonDiffers(got, want []byte) bool {
+	if len(got) != len(want) {
+		return false
+	}
+	diff := false
+	for i := range got {
+		if got[i] != want[i] {
+			if got[i] != track.PoisonByte {
+				return false
+			}
+			diff = true
+		}
+	}
+	return diff
 }
 
 func bytesHas(b []byte, c byte) bool {
@@ -214,8 +251,7 @@ func bytesHas(b []byte, c byte) bool {
 
 func (x *wsOracle) poison(data []byte, where, detail string) {
 	if !x.seen { // first observation only: the later ones are its consequences
-		x.seen = true
-		x.ep.T.PoisonRead(data, where, detail)
+		x.seen = x.ep.T.PoisonRead(data, where, detail)
 	}
 }
 
@@ -246,12 +282,12 @@ func (x *wsOracle) after(call, fed int, err error) {
 				other = i
 			}
 		}
-		detail := fmt.Sprintf(" after Parse call %d (%d bytes fed; cache % x, input tail % x)", call+1, fed, cached[:min(len(cached), 24)], w1[:min(len(w1), 24)])
-		if poisonAt >= 0 {
-			x.poison(cached, "Conn.bytesCached", detail)
+		// poison and nothing else where the cache differs from the input: a copy out of a freed buffer
+		if poisonAt >= 0 && other < 0 {
+			x.poison(cached, "Conn.bytesCached", fmt.Sprintf(" after Parse call %d (%d bytes fed; cache % x, input tail % x)", call+1, fed, cached[:min(len(cached), 24)], w1[:min(len(w1), 24)]))
 		}
 		if other >= 0 {
-			x.o.tailDiffs++
+			x.o.tailDiffs++ // not (only) poison: not judged here
 		}
 	}
 	if hm != nil && track.Overlaps(*hm, x.ep.LastPiece) {
@@ -278,56 +314,59 @@ func (x *wsOracle) after(call, fed int, err error) {
 			got = *hm
 		}
 		x.o.msgChecks++
-		if len(got) != len(want) {
+		if onlyPoisonDiffers(got, want) {
+			x.poison(got, "Conn.message", fmt.Sprintf(" after Parse call %d (%d bytes fed; message under assembly % x, frames fed % x)", call+1, fed, got[:min(len(got), 24)], want[:min(len(want), 24)]))
+		} else if !bytes.Equal(got, want) {
 			x.o.msgDiffs++
-		} else {
-			for i := range got {
-				if got[i] != want[i] {
-					if got[i] == track.PoisonByte {
-						x.poison(got, "Conn.message", fmt.Sprintf(" after Parse call %d (%d bytes fed; message under assembly % x, frames fed % x)", call+1, fed, got[:min(len(got), 24)], want[:min(len(want), 24)]))
-					} else {
-						x.o.msgDiffs++
-					}
-					break
-				}
-			}
 		}
 	}
 	x.reports()
 }
 
-// reports searches what was reported since the last call.
+// reports compares what was reported since the last call with what the reference model expects
+// at that place (the k-th message, the k-th data frame, the k-th pong).
 func (x *wsOracle) reports() {
-	if x.legit {
-		x.o.reportsOff = true
-		return
-	}
 	for ; x.nEv < len(x.ep.Events); x.nEv++ {
 		e := &x.ep.Events[x.nEv]
-		x.o.reported++
-		if bytesHas(e.Payload, track.PoisonByte) {
-			where := map[byte]string{'M': "OnMessage", 'F': "OnDataFrame", 'O': "PongHandler", 'P': "PingHandler", 'C': "CloseHandler"}[e.Kind]
-			x.poison(nil, where, fmt.Sprintf(" (%s)", e.String()))
+		k := x.nKind[e.Kind]
+		x.nKind[e.Kind]++
+		if k >= len(x.expect[e.Kind]) {
+			continue
 		}
-	}
-	if !x.ep.Cfg.Client { // a server writes unmasked frames: header bytes are never 0xDD, payloads echo the input
-		for ; x.nWr < len(x.ep.Fake.Writes); x.nWr++ {
-			x.o.reported++
-			if w := x.ep.Fake.Writes[x.nWr]; bytesHas(w, track.PoisonByte) {
-				x.poison(nil, "conn.Write", fmt.Sprintf(" (% x)", w[:min(len(w), 24)]))
-			}
+		x.o.reported++
+		if onlyPoisonDiffers(e.Payload, x.expect[e.Kind][k]) {
+			where := map[byte]string{'M': "OnMessage", 'F': "OnDataFrame", 'O': "PongHandler"}[e.Kind]
+			x.poison(nil, where, fmt.Sprintf(" (%s, expected %q)", e.String(), x.expect[e.Kind][k][:min(len(x.expect[e.Kind][k]), 24)]))
 		}
 	}
 }
 
-func wsRun(in *wsInput) *wsOutcome {
+func wsRun(in *wsInput) (o *wsOutcome) {
 	wire, _ := hex.DecodeString(in.Wire)
 	cfg := in.Cfg
 	cfg.Observe = true
 	ep := wsgen.NewEndpoint(cfg)
 	ep.Scribble = true
-	o := &wsOutcome{}
+	o = &wsOutcome{}
 	x := newWsOracle(ep, wire, cfg, o)
+	if ep.T.Guarded() {
+		// guard mode: a touch of a freed buffer faults; inside Conn.Parse and the executor nbio (or the
+		// harness' executor) recovers and logs it, around everything else this does
+		debug.SetPanicOnFault(true)
+		defer ep.Release()
+		defer func() {
+			if v := recover(); v != nil {
+				addr, ok := track.FaultAddr(v)
+				if !ok || !ep.T.Fault(addr, track.FaultSite(string(debug.Stack()))) {
+					panic(v)
+				}
+				for _, tv := range ep.T.Violations() {
+					o.sigs = append(o.sigs, tv.Sig)
+					o.descs = append(o.descs, tv.Desc)
+				}
+			}
+		}()
+	}
 	feed := func(w []byte, seg wsgen.Seg) *wsgen.FeedResult {
 		var his []int
 		seg.Pieces(len(w), func(lo, hi int) bool { his = append(his, hi); return true })
@@ -366,6 +405,7 @@ func wsRun(in *wsInput) *wsOutcome {
 	o.mallocs, o.frees = ep.T.Mallocs, ep.T.Frees
 	o.callbacks = len(ep.Events)
 	o.writes = len(ep.Fake.Writes)
+	o.guarded = ep.T.Guarded()
 	return o
 }
 
@@ -385,10 +425,10 @@ func wsAccount(p *vkit.Part, o *wsOutcome, scenario string, in interface{}, what
 	p.Count("ws_retained_cache_differs_from_input_without_poison(C12)", o.tailDiffs)
 	p.Count("ws_message_under_assembly_compared_with_frames_fed", o.msgChecks)
 	p.Count("ws_message_under_assembly_differs_without_poison(C12)", o.msgDiffs)
-	p.Count("ws_reported_payloads_and_writes_searched_for_poison", o.reported)
+	p.Count("ws_reported_payloads_compared_with_the_reference_model", o.reported)
 	p.Count("ws_conn_keeping_a_released_buffer_pointer(not_judged)", o.dangling)
-	if o.reportsOff {
-		p.Count("ws_runs_without_report_oracle(poison_byte_in_input)", 1)
+	if o.guarded {
+		p.Count("ws_runs_with_guard_pages", 1)
 	}
 	for i, s := range o.sigs {
 		p.Report(s, what+"\n  "+o.descs[i], scenario, in)
@@ -401,16 +441,35 @@ func wsAccount(p *vkit.Part, o *wsOutcome, scenario string, in interface{}, what
 type allocVar struct {
 	policy int
 	move   bool
+	guard  bool // freed buffers inaccessible instead of poisoned (track guard mode)
 }
 
-var wsAllocs = []allocVar{{0, false}, {1, false}, {2, false}, {0, true}}
+// wsAllocs are the allocator variants of the main space (one and two reads, byte at a time, all
+// configurations and faults): exact capacity, pooled capacity with recycled contents, exact
+// capacity with a moving Append - in poison mode - and the last one in guard mode (thorough: also
+// plain pooled capacity, which has the capacities of the recycled-contents variant, and recycled
+// contents in guard mode).
+func wsAllocs(thorough bool) []allocVar {
+	vs := []allocVar{{0, false, false}, {2, false, false}, {0, true, false}, {0, true, true}}
+	if thorough {
+		vs = append(vs, allocVar{1, false, false}, allocVar{2, false, true})
+	}
+	return vs
+}
+
+// wsMultiAllocs: the variants of the three- and four-read feeds - moving Append in poison mode,
+// recycled contents and moving Append in guard mode.
+var wsMultiAllocs = []allocVar{{0, true, false}, {2, false, true}, {0, true, true}}
+
+// wsSendAllocs: the sender side (poison mode; WriteMessage has no recover of its own).
+var wsSendAllocs = []allocVar{{0, false, false}, {1, false, false}, {2, false, false}, {0, true, false}}
 
 func wsPart(tier string, sh *vkit.Shard, p *vkit.Part) {
 	thorough := tier == "thorough"
 	seqs := wsSequences()
 	for _, s := range seqs {
 		for _, server := range []bool{true, false} {
-			for _, av := range wsAllocs {
+			for _, av := range wsAllocs(thorough) {
 				fr := append([]wsgen.Frame{}, s.frames...)
 				for i := range fr {
 					fr[i].Masked = server
@@ -428,7 +487,7 @@ func wsPart(tier string, sh *vkit.Shard, p *vkit.Part) {
 				for _, rp := range []bool{false, true} {
 					for _, mode := range []string{"execute", "blocking", "execute-false"} {
 						for _, h := range []string{"msg", "both", "frame"} {
-							base := wsgen.Cfg{Client: !server, Compress: s.comp, Level: 1, L: s.limit, Policy: av.policy, Move: av.move,
+							base := wsgen.Cfg{Client: !server, Compress: s.comp, Level: 1, L: s.limit, Policy: av.policy, Move: av.move, Guard: av.guard,
 								ReleasePayload: rp, Blocking: mode == "blocking", ExecuteFalse: mode == "execute-false",
 								NoOnMessage: h == "frame", OnDataFrame: h != "msg"}
 							run := func(cfg wsgen.Cfg, seg wsgen.Seg, closeCut bool) *wsOutcome {
@@ -489,7 +548,7 @@ func wsPart(tier string, sh *vkit.Shard, p *vkit.Part) {
 			continue
 		}
 		for _, server := range []bool{true, false} {
-			for _, av := range wsAllocs {
+			for _, av := range wsMultiAllocs {
 				// work item: one sequence, one role, one allocator variant
 				if !sh.Mine() {
 					continue
@@ -518,7 +577,7 @@ func wsPart(tier string, sh *vkit.Shard, p *vkit.Part) {
 	for pi, prog := range programs {
 		for _, client := range []bool{false, true} {
 			for _, comp := range []bool{false, true} {
-				for _, av := range wsAllocs {
+				for _, av := range wsSendAllocs {
 					if !sh.Mine() {
 						continue
 					}
@@ -563,7 +622,7 @@ func wsMultiCut(p *vkit.Part, s wsSeq, w *wsgen.Wire, wireHex string, server boo
 	for _, rp := range []bool{false, true} {
 		for _, mode := range modes {
 			for _, h := range handlers {
-				cfg := wsgen.Cfg{Client: !server, Compress: s.comp, Level: 1, L: s.limit, Policy: av.policy, Move: av.move,
+				cfg := wsgen.Cfg{Client: !server, Compress: s.comp, Level: 1, L: s.limit, Policy: av.policy, Move: av.move, Guard: av.guard,
 					ReleasePayload: rp, Blocking: mode == "blocking", NoOnMessage: h == "frame", OnDataFrame: h != "msg"}
 				run := func(kind string, cuts ...int) {
 					for _, closeCut := range []bool{false, true} {
@@ -614,6 +673,17 @@ func wsSend(in *wsSendInput) *wsOutcome {
 	ep.Clean(nil)
 	o.states = 1
 	o.panics = len(wsgen.DrainLog())
+	if !in.Client && !in.Comp {
+		// a server writes unmasked frames: header bytes of these short frames and the payloads (ASCII)
+		// never contain the poison byte, so on the wire it was read out of a freed buffer
+		for _, w := range ep.Fake.Writes {
+			o.reported++
+			if bytesHas(w, track.PoisonByte) {
+				ep.T.PoisonRead(nil, "conn.Write", fmt.Sprintf(" (% x)", w[:min(len(w), 24)]))
+				break
+			}
+		}
+	}
 	for _, v := range ep.T.Violations() {
 		o.sigs = append(o.sigs, v.Sig)
 		o.descs = append(o.descs, v.Desc)
